@@ -691,19 +691,26 @@ pub fn run_check(def: &CheckDef, opts: &Opts) -> i32 {
         exit = 2;
     }
 
-    // samples: verbose re-run of run 0 of up to two batches
+    // samples: for up to four batches, the most eventful of run indices 0..12, re-run verbosely
     let mut samples: Vec<Value> = vec![];
-    for (bi, _n) in plan.iter().take(3) {
+    for (bi, n) in plan.iter().take(4) {
         let b = &def.batches[*bi];
-        let seed = run_seed(opts.seed, prop, b.scenario.name(), 0);
-        let o = exec_run(prop, &b.scenario, Source::Seed(seed), true, &tolerate);
+        let mut best: Option<(u64, RunOut)> = None;
+        for idx in 0..(*n).min(12) {
+            let seed = run_seed(opts.seed, prop, b.scenario.name(), idx);
+            let o = exec_run(prop, &b.scenario, Source::Seed(seed), true, &tolerate);
+            if best.as_ref().map(|(_, x)| o.tail.len() > x.tail.len()).unwrap_or(true) {
+                best = Some((idx, o));
+            }
+        }
+        let Some((idx, o)) = best else { continue };
         let mut lines = o.tail.clone();
         if lines.len() > 40 {
             lines.truncate(40);
             lines.push("…".into());
         }
         let tape: Vec<String> = o.tape.iter().take(24).map(|t| format!("{}<{}={}", t.label, t.bound, t.value)).collect();
-        samples.push(json!({"scenario": b.scenario.name(), "run_index": 0, "choices": o.draws,
+        samples.push(json!({"scenario": b.scenario.name(), "run_index": idx, "choices": o.draws,
             "tape_head": tape, "trace": lines, "trace_hash": format!("{:016x}", o.trace_hash)}));
     }
 
